@@ -23,3 +23,15 @@ let () =
       if f.(5) <> "0" then
         specfail id ("clone_taken_during_a_first_execution_differs_from_a_fresh_set: " ^ string_of_bytes (bytes_of_hex f.(6)))
       else ok id (if f.(4) = "0" then "no_clone_returned" else "+clone_during_first_execution_is_faithful"))
+
+(* parse_overlap id <api> <first> <accepted|refused|setup> <result of the first execution> <X afterwards> <X on a fresh set>
+   (harness/cmd/run/c07.go): a ParseFiles / ParseGlob / ParseFS call that read its file AFTER the set's
+   first execution.  It must be refused, and X must execute exactly as on a fresh set with the original
+   definitions (implementation against implementation). *)
+let () =
+  reg "parse_overlap" (fun f ->
+      let id = f.(1) in
+      if f.(4) = "setup" then ok id "setup_failed"
+      else if f.(4) = "accepted" then specfail id ("parse_accepted_after_the_first_execution:" ^ f.(2))
+      else if f.(6) <> f.(7) then specfail id ("definitions_changed_after_the_first_execution:" ^ f.(2))
+      else ok id "+late_file_parse_refused")
